@@ -121,10 +121,10 @@ fn exec_pool_msg(sim: &mut FarmSim, m: &PoolMsg) -> Result<cw_multi_test::AppRes
             let u = sim.user(*user);
             // o.f0 = uom/uusd, o.f1 = uom/uusdt, o.f2 = uusd/uusdt
             let mut ops = vec![pm::SwapOperation::MantraSwap { token_in_denom: "uusd".into(), token_out_denom: "uom".into(), pool_identifier: sim.pool_ids[0].clone() }];
-            if n >= 2 {
+            if n >= 2 && sim.pool_ids[1] != "o.fee" {
                 ops.push(pm::SwapOperation::MantraSwap { token_in_denom: "uom".into(), token_out_denom: "uusdt".into(), pool_identifier: sim.pool_ids[1].clone() });
             }
-            if n >= 3 {
+            if n >= 3 && sim.pool_ids[2] != "o.fee" {
                 ops.push(pm::SwapOperation::MantraSwap { token_in_denom: "uusdt".into(), token_out_denom: "uusd".into(), pool_identifier: sim.pool_ids[2].clone() });
             }
             let recv = if *to_other { Some(sim.user(user + 1).to_string()) } else { None };
@@ -163,8 +163,21 @@ fn kind_of(p: &Probe) -> &'static str {
 
 fn build(c: &Case, st: &mut Stats) -> Result<FarmSim, String> {
     let mut sim = FarmSim::new(&c.cfg, FMon { c20: true, ..FMon::default() });
-    // give the pools protocol/burn fees? they are created fee-less by the farm world; swaps on them
-    // still exercise funds-in, return transfer and reserve updates; the extra pool of CreatePool has fees
+    // the farm world's pools are fee-less; add one pool WITH protocol, swap, burn and extra fees so that
+    // swaps, routes and single-asset deposits also make fee transfers and burns that can be failed
+    {
+        let u0 = sim.w.users[0].clone();
+        sim.w
+            .create_pool(&u0, &["uweth", "ubtc"], &[18, 8], fees(30, 20, 10, &[5]), pm::PoolType::ConstantProduct, Some("fee"))
+            .map_err(|e| format!("[harness] fee pool: {e}"))?;
+        for i in 0..2 {
+            let ui = sim.w.users[i].clone();
+            sim.w
+                .provide(&ui, "o.fee", &[coin(1_000_000_000_000_000_000_000, "uweth"), coin(100_000_000_000, "ubtc")], None, None, None, None, None)
+                .map_err(|e| format!("[harness] fee pool liquidity: {e}"))?;
+        }
+        sim.pool_ids.push("o.fee".to_string());
+    }
     for op in c.prefix.iter() {
         sim.step(op, st)?;
     }
